@@ -724,8 +724,8 @@ Lemma replay_loop_okstate c rows : forall a b, keeps okstate (replay_loop c rows
 Proof.
   induction rows as [|r rows IH]; intros a b; cbn [replay_loop]; cbv zeta; [keeps_tac|].
   keeps_step; [keeps_tac|]. keeps_step; [keeps_tac|]. destruct (_ || _); [apply IH|].
-  keeps_step; [kst|]. keeps_step; [keeps_tac|]. keeps_step; [keeps_tac|]. keeps_step; [keeps_tac|].
-  keeps_step; [keeps_tac|]. keeps_step; [kst|apply IH].
+  keeps_step; [kst|]. keeps_step; [keeps_tac|]. keeps_step; [keeps_tac|].
+  keeps_step; [kst|apply IH].
 Qed.
 
 Lemma process_message_okstate c m now : keeps okstate (process_message c m now).
